@@ -28,6 +28,10 @@ pub enum TOp {
     /// same-price amendment through price+quantity (via 1) or replace (via 2)
     AmendVia(u16, u64, u8),
     Read,
+    /// cancel the order and, if the cancel handed it back, submit it again under the same id with a
+    /// new timestamp (flag bit 0: one more displayed unit, otherwise exactly the same quantities):
+    /// two calls of the same thread, so the id is never resting twice
+    Readd(u16, u8),
 }
 
 impl TOp {
@@ -45,7 +49,7 @@ impl TOp {
     }
     pub fn target_index(&self) -> Option<u16> {
         match self {
-            TOp::Cancel(i) | TOp::Move(i) | TOp::MoveVia(i, _) | TOp::UpdateQty(i, _) | TOp::AmendVia(i, _, _) => Some(*i),
+            TOp::Cancel(i) | TOp::Move(i) | TOp::MoveVia(i, _) | TOp::UpdateQty(i, _) | TOp::AmendVia(i, _, _) | TOp::Readd(i, _) => Some(*i),
             _ => None,
         }
     }
@@ -86,6 +90,24 @@ impl Program {
             .collect()
     }
 }
+
+/// (placeholder description of a resubmitted order in the call log; the order itself is recorded)
+const READD_SPEC: OrderSpec = OrderSpec {
+    kind: Kind::Standard,
+    display: 0,
+    hidden: 0,
+    buy: false,
+    tif: crate::spec::Tif::Gtc,
+    ts: 0,
+    threshold: 0,
+    amount: None,
+    auto: false,
+    trail: 0,
+    lastref: 0,
+    offset: 0,
+    peg: 0,
+    own_price: None,
+};
 
 fn conc_order(profile_kinds: [u32; 7]) -> BoxedStrategy<OrderSpec> {
     // positive quantities 1..=10, reserve amount != 0 (DESIGN §3 thread programs)
@@ -168,6 +190,7 @@ fn top(cfg: ProgCfg) -> BoxedStrategy<TOp> {
         cfg.w_amend => (any::<u16>(), 1u64..=12, 0u8..6).prop_map(|(i, q, v)| if v < 4 { TOp::UpdateQty(i, q) } else { TOp::AmendVia(i, q, v - 3) }),
         cfg.w_move => (any::<u16>(), 0u8..3).prop_map(|(i, v)| if v == 0 { TOp::Move(i) } else { TOp::MoveVia(i, v) }),
         cfg.w_read => Just(TOp::Read),
+        (cfg.w_cancel / 2).max(1) => (any::<u16>(), any::<u8>()).prop_map(|(i, f)| TOp::Readd(i, f)),
     ]
     .boxed()
 }
@@ -366,11 +389,38 @@ pub fn execute(p: &Program, with_probes: bool) -> Execution {
         let ops = ops.clone();
         let ids = add_ids[tid].clone();
         bodies.push(Box::new(move |ctx: &Ctx| {
+            // (a Readd is two calls: a cancel and, if that handed the order back, an add of it)
+            let mut micro: Vec<(usize, TOp, Option<u8>)> = Vec::new();
             for (k, op) in ops.iter().enumerate() {
+                match op {
+                    TOp::Readd(i, f) => {
+                        micro.push((k, TOp::Cancel(*i), None));
+                        micro.push((k, TOp::Readd(*i, *f), Some(*f)));
+                    }
+                    other => micro.push((k, *other, None)),
+                }
+            }
+            let mut handed_back: Option<Order> = None;
+            for (k, op, readd) in micro.iter() {
+                let k = *k;
                 let target = |i: u16| uni[pick(i, uni.len())];
-                let id = match op {
-                    TOp::Add(_) => ids[k],
-                    TOp::Cancel(i) | TOp::Move(i) | TOp::UpdateQty(i, _) | TOp::MoveVia(i, _) | TOp::AmendVia(i, _, _) => Some(target(*i)),
+                // the second half of a Readd: submit what the cancel just handed back (if anything)
+                let resubmitted: Option<Order> = match readd {
+                    Some(f) => match handed_back.take() {
+                        Some(o) => {
+                            let o = crate::spec::with_timestamp(&o, 5000 + (tid * 100 + k) as u64);
+                            Some(if f & 1 == 1 { crate::spec::with_quantities(&o, o.visible_quantity() + 1, o.hidden_quantity()) } else { o })
+                        }
+                        None => continue,
+                    },
+                    None => None,
+                };
+                let readd_as_add = resubmitted.map(|o| TOp::Add(crate::spec::OrderSpec { display: o.visible_quantity(), hidden: o.hidden_quantity(), ..READD_SPEC }));
+                let op = readd_as_add.as_ref().unwrap_or(op);
+                let id = match (op, &resubmitted) {
+                    (_, Some(o)) => Some(o.id()),
+                    (TOp::Add(_), None) => ids[k],
+                    (TOp::Cancel(i) | TOp::Move(i) | TOp::UpdateQty(i, _) | TOp::MoveVia(i, _) | TOp::AmendVia(i, _, _), None) => Some(target(*i)),
                     _ => None,
                 };
                 let start = ctx.now();
@@ -378,7 +428,10 @@ pub fn execute(p: &Program, with_probes: bool) -> Execution {
                     let mut w = world_ref.lock().unwrap();
                     match op {
                         TOp::Add(s) => {
-                            w.supplied_bound += s.display as u128 + if s.kind.has_hidden() { s.hidden as u128 } else { 0 };
+                            w.supplied_bound += match &resubmitted {
+                                Some(o) => o.visible_quantity() as u128 + o.hidden_quantity() as u128,
+                                None => s.display as u128 + if s.kind.has_hidden() { s.hidden as u128 } else { 0 },
+                            };
                             w.orders_bound += 1;
                         }
                         TOp::UpdateQty(_, q) | TOp::AmendVia(_, q, _) => w.supplied_bound += *q as u128,
@@ -388,8 +441,9 @@ pub fn execute(p: &Program, with_probes: bool) -> Execution {
                         tid,
                         op: *op,
                         id,
-                        order: match op {
-                            TOp::Add(s) => {
+                        order: match (op, &resubmitted) {
+                            (_, Some(o)) => Some(*o),
+                            (TOp::Add(s), None) => {
                                 let mut s = *s;
                                 s.ts = 1000 + (tid * 100 + k) as u64;
                                 Some(s.build(id.unwrap(), price))
@@ -407,6 +461,11 @@ pub fn execute(p: &Program, with_probes: bool) -> Execution {
                     ci
                 };
                 let result = std::panic::catch_unwind(std::panic::AssertUnwindSafe(|| match op {
+                    TOp::Add(_) if resubmitted.is_some() => {
+                        level_ref.add_order(resubmitted.unwrap());
+                        CallResult::Added
+                    }
+                    TOp::Readd(..) => unreachable!("a Readd runs as a cancel and an add"),
                     TOp::Add(s) => {
                         let mut s = *s;
                         s.ts = 1000 + (tid * 100 + k) as u64;
@@ -477,6 +536,11 @@ pub fn execute(p: &Program, with_probes: bool) -> Execution {
                     }
                 };
                 let end = ctx.now();
+                // (the first half of a Readd remembers what the cancel handed back)
+                handed_back = match (micro.iter().any(|m| m.0 == k && m.2.is_some()), op, &result) {
+                    (true, TOp::Cancel(_), CallResult::Updated(Ok(Some(o)))) => Some(*o),
+                    _ => None,
+                };
                 let mut w = world_ref.lock().unwrap();
                 w.calls[ci].end = end;
                 w.calls[ci].result = result;
@@ -555,7 +619,7 @@ struct Event {
 fn linearize(initial: Option<Order>, events: &[Event], fin: Option<Order>, any_match: bool) -> bool {
     // DFS over orders consistent with real time (a.end < b.start => a first) and per-call order,
     // memoised on (set of events done, order state) so that an unexplainable history fails fast
-    type Memo = HashSet<(u32, Option<(u64, u64)>, bool)>;
+    type Memo = HashSet<(u32, Option<(u64, u64, u64)>, bool)>;
     fn go(state: Option<Order>, dead: bool, events: &[Event], done: u32, fin: &Option<Order>, memo: &mut Memo, any_match: bool) -> bool {
         if done.count_ones() as usize == events.len() && state == *fin {
             return true;
@@ -567,7 +631,7 @@ fn linearize(initial: Option<Order>, events: &[Event], fin: Option<Order>, any_m
                 if o.visible_quantity() == 0 {
                     let nx = ref_match(o, 1).next;
                     if nx != state {
-                        let key = (done | (1 << 31), state.as_ref().map(|o| (o.visible_quantity(), o.hidden_quantity())), dead);
+                        let key = (done | (1 << 31), state.as_ref().map(|o| (o.visible_quantity(), o.hidden_quantity(), o.timestamp())), dead);
                         if memo.insert(key) {
                             let gone = nx.is_none();
                             if go(nx, gone, events, done, fin, memo, any_match) {
@@ -581,7 +645,7 @@ fn linearize(initial: Option<Order>, events: &[Event], fin: Option<Order>, any_m
         if done.count_ones() as usize == events.len() {
             return false;
         }
-        let key = (done, state.as_ref().map(|o| (o.visible_quantity(), o.hidden_quantity())), dead);
+        let key = (done, state.as_ref().map(|o| (o.visible_quantity(), o.hidden_quantity(), o.timestamp())), dead);
         if !memo.insert(key) {
             return false;
         }
@@ -605,7 +669,7 @@ fn linearize(initial: Option<Order>, events: &[Event], fin: Option<Order>, any_m
                 continue;
             }
             let next: Option<(Option<Order>, bool)> = match (&events[i].ev, &state) {
-                (Ev::Add { order }, None) if !dead => Some((Some(*order), false)),
+                (Ev::Add { order }, None) if !dead || order.timestamp() >= 5000 => Some((Some(*order), false)),
                 (Ev::Fill { qty, taker_remaining }, Some(o)) => {
                     let r = ref_match(o, *taker_remaining);
                     if r.consumed == *qty && *qty > 0 {
